@@ -639,7 +639,8 @@ impl<'lexer> Lexer<'lexer> {
     // variable name is the name before the keyword `in`
     // ------------------------------------------------------------------------
     if self.till_in {
-      if let Some(index) = parts.iter().position(|value| value == "in") {
+      // (there is no variable name when `in` comes first: `for in[1] return 1`)
+      if let Some(index) = parts.iter().position(|value| value == "in").filter(|index| *index > 0) {
         self.till_in = false;
         parts.truncate(index);
         self.position = consumed_positions[index - 1] + 1;
